@@ -145,12 +145,37 @@ class Check:
                 os.remove(vio_path)
             except OSError:
                 pass
+        if code == 0 and und:
+            # an obligation the analysis claims but could not decide is not a pass
+            out.append(f"ANALYSIS-ERROR property={self.pid} {len(und)} obligation(s) undecided (first: {und[0]['rule']} {und[0]['construct']})")
+            code = 2
+        if code == 0:
+            low = self.below_baseline(per_rule)
+            if low:
+                out.append(f"ANALYSIS-ERROR property={self.pid} rule instance counts fell below the confirmed baseline: " + "; ".join(low))
+                code = 2
         out.append(f"{self.pid}: {len(new)} new violations, {len(seen_whats)} known findings, "
                    f"{len(und)} undecided, exit {code}")
         if not self.quiet:
             print("\n".join(out))
         self.write_evidence(len(new), knownv, und)
         return code
+
+    def below_baseline(self, per_rule) -> List[str]:
+        """rules whose number of located instances dropped below 3/4 of what was confirmed on the reference tree (tools/gen_baseline.py):
+        a rule that silently stops finding its constructs would otherwise pass vacuously"""
+        path = os.path.join(VERIF, "baseline_counts.json")
+        if not os.path.isfile(path) or os.environ.get("VF_NO_BASELINE"):
+            return []
+        with open(path, encoding="utf-8") as f:
+            base = json.load(f).get(f"{self.pid}:{self.tier}", {})
+        low = []
+        for rid, n in sorted(base.items()):
+            got = sum(per_rule.get(rid, {}).values())
+            need = -(-3 * n // 4)
+            if got < need:
+                low.append(f"{rid}: {got} < {need} (baseline {n})")
+        return low
 
     def write_evidence(self, nviol: int, knownv, und, error: Optional[str] = None) -> None:
         ev_dir = os.environ.get("VF_EVIDENCE_DIR") or os.path.join(VERIF, "evidence")
